@@ -463,13 +463,16 @@ def run(tier, seed, model_ok, translator, search=False):
                 "relative, absolute-prefix, double-slash-absolute and decoy (/etc/passwd) forms, mutated with doubled "
                 "slashes, backslashes, trailing slash and file:/FILE:/… prefixes; x placement (root item, include in a "
                 "root-level file, include in a nested file, include reached through a symlinked folder) x root "
-                "configuration x tracker kind. Non-trivial: the specification contains at least one hostile element "
+                "configuration x tracker kind; plus histories in one process: the same specifications re-loaded while the "
+                "tree is edited between loads (folder/file <-> outward or inward symlink, symlink retargeted), every "
+                "call judged and compared with the tree as it is at that call. Non-trivial: the specification contains at least one hostile element "
                 "('..', symlink, absolute prefix, doubled/back slash, protocol prefix) or is refused; distinct by "
                 "(level, placement, root configuration, specification with the scratch dir abstracted).")
     thorough = tier == "thorough"
     n_parse = 8000 if thorough else 1500
     n_fn = 40000 if thorough else 4000
     n_api = 6000 if thorough else 500
+    n_hist = 150 if thorough else 14
     rng = make_rng(seed, "C17")
     _install_hook()
     import pdtable  # noqa  (imports happen before the audit window: the import system lists sys.path folders)
@@ -493,6 +496,7 @@ def run(tier, seed, model_ok, translator, search=False):
         os.chdir(old_cwd)
         fs = snapshot_fs(T, DECOYS)
         _api_cases(rng, T, tables, seed, fs, n_api, ops, pend, out, model_ok)
+        _history_cases(T, seed, n_hist, ops, pend, out, model_ok)
         if model_ok:
             answers = common.run_model(ops)
             for (what, case, impl, post), ans in zip(pend, answers):
@@ -664,6 +668,56 @@ PARENT_TARGETS_RELATIVE = ["../secret_top.csv", "file:../secret_top.csv", "..//s
                            "../root2/e.csv", "../croot/../outside", "../root/a.csv"]
 
 
+def _judge_load(out, case, T, root, spec, planted_src, raising, end, events, got_tables, refused, tables):
+    """the property itself on one fully consumed load_files call (no use of the model): judged with the tree
+    as it is right after the call (the harness never edits the tree while a load is running)"""
+    reported = [spec, planted_src] in refused
+    # ---- oracle 1: nothing outside the root is opened or listed
+    want = ("none",) if planted_src == "unplantable" else intended(root, spec, planted_src)
+    case["want"] = want[0]
+    for k, p in events:
+        rp = real_target(p)
+        if not inside(rp, root):
+            known = want[0] == "partial"
+            out.count("api:outside-access" + (":after-loop" if known else ""))
+            if not known or out.dist["api:outside-access:after-loop"] <= 3:
+                out.fail(f"{k} on a path outside the root folder", case, [k, tok(p, T), tok(rp, T)],
+                         "no access outside " + tok(root, T),
+                         key=PARTIAL_KEY if known else "api:outside-access")
+            break
+    # ---- oracle 2: outside => reported LoadError; inside => loaded normally
+    if planted_src != "unplantable":
+        if want[0] == "none" or (want[0] == "path" and not inside(want[1], root)):
+            ok = (end == {"exc": "InputError" if raising else "LoadError"}) and reported
+            if not ok:
+                out.fail("specification whose target is outside the root was not reported as a load error",
+                         case, {"end": end, "refused": [[tok(a, T), tok(b, T)] for a, b in refused]},
+                         "LoadError reported and raised",
+                         key="api:not-refused")
+            out.count("api:want-out")
+        elif want[0] == "path":
+            tgt = want[1]
+            out.count("api:want-in")
+            if reported:
+                out.fail("specification whose target is inside the root was refused", case,
+                         {"end": end}, tok(tgt, T), key="api:refused-inside")
+            elif end == "done" or (raising and end == {"exc": "InputError"}):
+                exp_tabs = []
+                if os.path.isfile(tgt) and tgt.lower().endswith(".csv"):
+                    exp_tabs = [tables[tgt]] if tgt in tables else []
+                elif os.path.isdir(tgt):
+                    exp_tabs = [tables[os.path.join(tgt, c)] for c in os.listdir(tgt)
+                                if os.path.join(tgt, c) in tables and os.path.isfile(os.path.join(tgt, c))
+                                and not os.path.islink(os.path.join(tgt, c))]
+                if end == "done":
+                    missing = [t for t in exp_tabs if t not in got_tables]
+                    if missing:
+                        out.fail("tables of a specification inside the root did not come out", case,
+                                 {"missing": missing, "got": got_tables}, exp_tabs, key="api:not-loaded")
+        else:
+            out.count("api:want-" + want[0])
+
+
 def _api_cases(rng, T, tables, seed, fs, n, ops, pend, out, model_ok):
     root = T + "/root"
     static_world = None
@@ -751,55 +805,11 @@ def _api_cases(rng, T, tables, seed, fs, n, ops, pend, out, model_ok):
                     "roots": [tok(r, T) for r in roots] if roots is not None else None, "raising_tracker": raising,
                     "root_as": type(root_arg).__name__, "tags": tags}
             end, events, got_tables, refused = impl_load(T, root_arg, roots, raising)
-            reported = [spec, planted_src] in refused
             evs = [[k, p] for k, p in events]
             out.count("api:" + placement + ":" + (end if isinstance(end, str) else end["exc"]))
             hostile = bool(set(tags) - {"plain", "rooted", "relative", "default"}) or end != "done"
             out.case(case, nontrivial=hostile)
-            # ---- oracle 1: nothing outside the root is opened or listed
-            want = ("none",) if planted_src == "unplantable" else intended(root, spec, planted_src)
-            case["want"] = want[0]
-            for k, p in events:
-                rp = real_target(p)
-                if not inside(rp, root):
-                    known = want[0] == "partial"
-                    out.count("api:outside-access" + (":after-loop" if known else ""))
-                    if not known or out.dist["api:outside-access:after-loop"] <= 3:
-                        out.fail(f"{k} on a path outside the root folder", case, [k, tok(p, T), tok(rp, T)],
-                                 "no access outside " + tok(root, T),
-                                 key=PARTIAL_KEY if known else "api:outside-access")
-                    break
-            # ---- oracle 2: outside => reported LoadError; inside => loaded normally
-            if planted_src != "unplantable":
-                if want[0] == "none" or (want[0] == "path" and not inside(want[1], root)):
-                    ok = (end == {"exc": "InputError" if raising else "LoadError"}) and reported
-                    if not ok:
-                        out.fail("specification whose target is outside the root was not reported as a load error",
-                                 case, {"end": end, "refused": [[tok(a, T), tok(b, T)] for a, b in refused]},
-                                 "LoadError reported and raised",
-                                 key="api:not-refused")
-                    out.count("api:want-out")
-                elif want[0] == "path":
-                    tgt = want[1]
-                    out.count("api:want-in")
-                    if reported:
-                        out.fail("specification whose target is inside the root was refused", case,
-                                 {"end": end}, tok(tgt, T), key="api:refused-inside")
-                    elif end == "done" or (raising and end == {"exc": "InputError"}):
-                        exp_tabs = []
-                        if os.path.isfile(tgt) and tgt.lower().endswith(".csv"):
-                            exp_tabs = [tables[tgt]] if tgt in tables else []
-                        elif os.path.isdir(tgt):
-                            exp_tabs = [tables[os.path.join(tgt, c)] for c in os.listdir(tgt)
-                                        if os.path.join(tgt, c) in tables and os.path.isfile(os.path.join(tgt, c))
-                                        and not os.path.islink(os.path.join(tgt, c))]
-                        if end == "done":
-                            missing = [t for t in exp_tabs if t not in got_tables]
-                            if missing:
-                                out.fail("tables of a specification inside the root did not come out", case,
-                                         {"missing": missing, "got": got_tables}, exp_tabs, key="api:not-loaded")
-                else:
-                    out.count("api:want-" + want[0])
+            _judge_load(out, case, T, root, spec, planted_src, raising, end, events, got_tables, refused, tables)
             if model_ok:
                 world = snapshot_world(T)
                 ops.append({"op": "pathres_load", "root": str(root_arg), "roots": roots, "fs": fs, "world": world,
@@ -816,6 +826,114 @@ def _api_cases(rng, T, tables, seed, fs, n, ops, pend, out, model_ok):
                     pass
 
 
+# --------------------------------------------------------------------------- histories: the tree is edited between loads
+
+H_SLOTS = {
+    # slot name -> state -> how to make it (relative to the history root `hroot`)
+    "sub": {"dir": ("dir", None), "link_out": ("link", "../hout/sub"), "link_in": ("link", "inner"),
+            "link_out_abs": ("link", "$T/hout/sub")},
+    "f.csv": {"file": ("file", None), "link_out": ("link", "../hout/x.csv"), "link_in": ("link", "inner/a.csv")},
+    "ln": {"link_in": ("link", "inner"), "link_out": ("link", "../hout/sub"), "link_in_abs": ("link", "$T/hroot/inner")},
+}
+H_SPECS = ["/sub/a.csv", "/sub", "/f.csv", "/ln/a.csv", "/ln", "file:/sub/a.csv", "\\sub//a.csv", "/top.csv",
+           "/sub/../f.csv", "/ln/../sub/a.csv"]
+
+
+def _rm(p):
+    if os.path.islink(p) or os.path.isfile(p):
+        os.remove(p)
+    elif os.path.isdir(p):
+        shutil.rmtree(p)
+
+
+def _set_slot(T, htables, slot, state):
+    """edit the scratch tree: put `slot` of the history root into `state`"""
+    p = T + "/hroot/" + slot
+    for k in [k for k in htables if k == p or k.startswith(p + "/")]:
+        del htables[k]
+    _rm(p)
+    kind, target = H_SLOTS[slot][state]
+    if kind == "link":
+        os.symlink(target.replace("$T", T), p)
+    elif kind == "dir":
+        os.makedirs(p)
+        with open(p + "/a.csv", "w") as fh:
+            fh.write(_table("t_hin_sub_a"))
+        htables[p + "/a.csv"] = "t_hin_sub_a"
+    else:
+        with open(p, "w") as fh:
+            fh.write(_table("t_hin_f"))
+        htables[p] = "t_hin_f"
+
+
+def _history_cases(T, seed, n, ops, pend, out, model_ok):
+    """state carried across calls in ONE process: the same specifications are loaded again and again while the
+    scratch tree is edited between the loads (folder -> outward symlink, file -> outward symlink, symlink
+    retargeted inside -> outside and back).  Every call is judged on its own, with the tree as it is at that call:
+    real path of every opened / listed path, refusal of what now lies outside, loading of what now lies inside;
+    and compared with the model over the symlink map and world observed at that call."""
+    root = T + "/hroot"
+    htables = {}
+
+    def put(rel, name, extra=""):
+        q = os.path.join(T, rel)
+        os.makedirs(os.path.dirname(q), exist_ok=True)
+        with open(q, "w") as fh:
+            fh.write(_table(name) + extra)
+        htables[q] = name
+
+    put("hroot/inner/a.csv", "t_hin_inner_a")
+    put("hroot/top.csv", "t_hin_top", "***include;\nf.csv\nsub/a.csv\n\n")
+    put("hout/sub/a.csv", "t_hout_sub_a")
+    put("hout/x.csv", "t_hout_x")
+    state = {}
+    for h in range(n):
+        rng = make_rng(seed, f"C17:hist:{h}")
+        n_steps = rng.choice([3, 4, 5])
+        specs = rng.sample(H_SPECS, rng.choice([2, 3, 4]))
+        if h == 0:
+            specs = ["/sub/a.csv", "/sub", "/f.csv"]
+        raising = rng.random() < 0.25
+        for step in range(n_steps):
+            # ---- edit
+            edits = {}
+            for slot in H_SLOTS:
+                if slot not in state or rng.random() < 0.6:
+                    edits[slot] = rng.choice(sorted(H_SLOTS[slot]))
+            if h == 0:
+                edits = {"sub": ["dir", "link_out", "dir", "link_out_abs", "link_in"][step % 5],
+                         "f.csv": ["file", "link_out", "link_in", "file", "link_out"][step % 5],
+                         "ln": ["link_in", "link_out", "link_in_abs", "link_out", "link_in"][step % 5]}
+            for slot, st in edits.items():
+                if state.get(slot) != st:
+                    out.count(f"hist:edit:{slot}:{state.get(slot)}->{st}")
+                _set_slot(T, htables, slot, st)
+                state[slot] = st
+            fs = snapshot_fs(T, DECOYS)
+            world = snapshot_world(T) if model_ok else None
+            # ---- the same loads again
+            calls = [[sp] for sp in specs]
+            if rng.random() < 0.3:
+                calls.append(list(specs))
+            for j, roots in enumerate(calls):
+                spec = roots[-1]                      # processed first
+                root_arg = root if (h + j) % 2 else Path(root)
+                case = {"level": "history", "seed": seed, "index": h, "step": step, "load": j,
+                        "tree": dict(state), "roots": roots, "spec": spec, "raising_tracker": raising,
+                        "specs_of_history": specs}
+                end, events, got_tables, refused = impl_load(T, root_arg, roots, raising)
+                out.count("hist:" + (end if isinstance(end, str) else end["exc"]))
+                out.case(case, nontrivial=step > 0)
+                _judge_load(out, case, T, root, spec, None, raising, end, events, got_tables, refused, htables)
+                if model_ok:
+                    ops.append({"op": "pathres_load", "root": str(root_arg), "roots": roots, "fs": fs, "world": world,
+                                "tracker_raises": raising, "loop_fuel": LOOP_FUEL})
+                    pend.append(("load_files vs loadFiles after tree edits (end, open/listdir events in order)", case,
+                                 {"end": end, "events": [[k, q] for k, q in events]},
+                                 lambda a: {"end": a["end"],
+                                            "events": [e[:2] for e in a["trace"] if e[0] in ("open", "listdir")]}))
+
+
 def replay(rep):
     """cases are regenerated from (seed, level, index) alone (one PRNG per case; the scratch directory name
     differs between runs, so specifications are not compared textually): re-run and look at the same case"""
@@ -823,7 +941,7 @@ def replay(rep):
     inp = rep.get("input") or {}
     if "index" not in inp:
         return False, "replay file has no input (no-failing-input-found): " + str(rep.get("broken"))[:300]
-    quick_n = {"function": 4000, "api": 500}.get(inp.get("level"), 0)
+    quick_n = {"function": 4000, "api": 500, "history": 14}.get(inp.get("level"), 0)
     for tier in (("quick",) if inp["index"] < quick_n else ("thorough",)):
         o = run(tier, seed, model_ok=False, translator=common.translate())
         hit = [f for f in o.failures if f["input"].get("index") == inp["index"]
